@@ -181,6 +181,18 @@ impl Thread {
     }
 }
 
+impl Drop for Thread {
+    fn drop(&mut self) {
+        // Thread-locals are destroyed by the thread itself when it finishes.
+        // Values that are still here when the execution is torn down by a
+        // panic may own loom objects, whose destructors need access to the
+        // execution: leak them.
+        if std::thread::panicking() {
+            std::mem::forget(std::mem::take(&mut self.locals));
+        }
+    }
+}
+
 impl fmt::Debug for Thread {
     // Manual debug impl is necessary because thread locals are represented as
     // `dyn Any`, which does not implement `Debug`.
